@@ -966,6 +966,16 @@ func TestVerifC03Crash(t *testing.T) {
 			// (T) trace comparison
 			if n := len(cs.W); n > 0 && cs.W[n-1].A == "End" && len(cs.Sites) > 0 {
 				real := c03Project(run.trace, modelled)
+				if p := os.Getenv("C03_TRACES_OUT"); p != "" {
+					// handed to TLC (Trace_Crash.tla): is this trace a behaviour of Crash.tla for this workload?
+					raw, _ := json.Marshal(map[string]any{"id": ci, "tr": real})
+					mu.Lock()
+					if f, err := os.OpenFile(p, os.O_CREATE|os.O_WRONLY|os.O_APPEND, 0o644); err == nil {
+						f.Write(append(raw, '\n'))
+						f.Close()
+					}
+					mu.Unlock()
+				}
 				pred := cs.W[n-1].Trace
 				if d := c03TraceDiff(pred, real); d != "" {
 					ndrift.Add(1)
